@@ -56,6 +56,21 @@ def tup(e):
     return e
 
 
+def iso_codes():
+    """the ISO-4217 codes iso_currency knows (Currency::from_code), from the crate's own data file"""
+    import glob
+    f = sorted(glob.glob("/root/.cargo/registry/src/*/iso_currency-*/isodata.tsv"))
+    codes = []
+    if f:
+        for i, line in enumerate(open(f[-1], encoding="utf-8")):
+            c = line.split("\t")[0].strip()
+            if i and len(c) == 3 and c.isalpha():
+                codes.append(c.upper())
+    if not codes:
+        raise Unsupported("iso_currency data file not found")
+    return codes
+
+
 def load_arms(repo):
     """match_nodes! arms of parser.rs: rule name -> list of child-rule sequences that are accepted"""
     src = open(f"{repo}/crates/cgt-core/src/parser.rs").read()
@@ -83,6 +98,16 @@ class Enc:
         s._skip = None
         s.FAIL = (PV(FAILV), KL(0), KC(0), T_)
         s.comment_silent = rules.get("COMMENT", ("_", None))[0] == "_"
+        # semantic action of the `currency_code` node (parser.rs): upper-cased text must be a code iso_currency knows
+        s.iso = [(ord(c[0]) - 65) * 676 + (ord(c[1]) - 65) * 26 + (ord(c[2]) - 65) for c in iso_codes()]
+
+    def iso_ok(s, i):
+        if i + 3 > s.L:
+            return BoolVal(False)
+        def up(c):
+            return If(And(UGE(c, 97), ULE(c, 122)), c - 32, c)
+        k = ZeroExt(8, up(s.c[i]) - 65) * 676 + ZeroExt(8, up(s.c[i + 1]) - 65) * 26 + ZeroExt(8, up(s.c[i + 2]) - 65)
+        return Or([k == BitVecVal(v, 16) for v in s.iso])
 
     def ok(s, e):
         return e != FAILV
@@ -245,6 +270,8 @@ class Enc:
                             alts.append(And(kl == len(arm), kc == code))
                     valid = Or(alts) if alts else BoolVal(False)
                 kids_ok = ok if mod != "@" else T_
+                if name == "currency_code":
+                    valid = And(valid, s.iso_ok(i))
                 T.append((end, KL(1), KC(s.rid[name]), And(kids_ok, valid)))
             return T
         if k == "seq":
